@@ -107,6 +107,7 @@ func c13Scenario(clients []gridClient) *explore.Scenario {
 				cache := tls.NewLRUClientSessionCache(4)
 				ccfg.ClientSessionCache = cache
 				ccfg.OmitEmptyPsk = true
+				ccfg.PreferSkipResumptionOnNilExtension = true // specs without the needed session extension simply do not resume
 				hk0 := &connHooks{Versions: hk.Versions}
 				var cl0 func()
 				c0 := *ccfg
